@@ -46,11 +46,16 @@ void parsec_mempool_construct( parsec_mempool_t *mempool,
     mempool->pool_owner_offset = pool_offset;
     mempool->nb_max_elt = 0;
     mempool->obj_class = obj_class;
-    mempool->thread_mempools = (parsec_thread_mempool_t *)malloc(sizeof(parsec_thread_mempool_t) * nbthreads);
-    memset( mempool->thread_mempools, 0, sizeof(parsec_thread_mempool_t) * nbthreads );
+    /* thread_mempools is what users test to know that the mempool exists (e.g. the
+     * lazily built mempools of the DTD task classes): publish it only once every
+     * thread mempool is constructed. */
+    parsec_thread_mempool_t *thread_mempools = (parsec_thread_mempool_t *)malloc(sizeof(parsec_thread_mempool_t) * nbthreads);
+    memset( thread_mempools, 0, sizeof(parsec_thread_mempool_t) * nbthreads );
 
     for(tid = 0; tid < mempool->nb_thread_mempools; tid++)
-        parsec_thread_mempool_construct(&mempool->thread_mempools[tid], mempool);
+        parsec_thread_mempool_construct(&thread_mempools[tid], mempool);
+    parsec_atomic_wmb();
+    mempool->thread_mempools = thread_mempools;
 }
 
 uint64_t parsec_mempool_destruct( parsec_mempool_t *mempool )
